@@ -137,13 +137,10 @@ theorem toposort_deterministic' (ns : List StructDecl) {m : GoMap Key Nat} (h : 
     topoSortRep m ns = topoSort ns :=
   (toposort_deterministic ns (buildByQID_keysNodup ns) h).symm
 
--- `toposort_is_topological` (when `topoSort ns = some order`, `order` lists every struct index exactly once
--- and every struct after the structs its fields resolve to) is proved in Props/C20Topo.lean (round 2).
--- OPEN (outside the property; model validation only): `none` is returned only if the resolved dependency
---   graph has a cycle, i.e. the fuel `ns.length + 2` never runs out.  Needs the stack invariant
---   (temporaries = the current DFS path, so depth ≤ number of non-temporary nodes + 1).  The harness oracle
---   checks it on every generated graph on the real ast.TopologicalSortStructs (key topo:false-cycle), and a
---   fuel shortage in the model would show as a `topo` correspondence mismatch.
+-- Model validation beyond the determinism clause, proved in Props/C20Topo.lean (round 2):
+-- `toposort_is_topological` (a successful sort lists every struct index exactly once and every struct
+-- after the structs its fields resolve to), `toposort_none_iff_cycle` (`none` iff the resolved dependency
+-- graph has a cycle: the fuel `ns.length + 2` never runs out), `qqidLess_eq_key_lt`.
 
 /-- non-vacuity: dependencies first, declaration order otherwise; a cycle is refused -/
 example : topoSort [⟨10, [11, 12]⟩, ⟨11, [12]⟩, ⟨12, [99]⟩, ⟨13, []⟩] = some [2, 1, 0, 3] := by decide
